@@ -40,7 +40,11 @@ class HeapEngine(HeapOps):
     # ------------------------------------------------------------------ contracts at call sites
     def call_repo_function(self, fi, args, kw, st, node):
         c = self.contracts.get(fi.fid)
-        if c is not None and not c.transparent and (not getattr(c, 'inline', True) or not hasattr(c, 'types')):
+        root_c = self.root[1] if getattr(self, 'root', None) else None
+        want_modular = c is not None and getattr(c, 'modular', False) and getattr(root_c, 'use_modular', False) \
+            and root_c is not c
+        if c is not None and not c.transparent and (not getattr(c, 'inline', True) or not hasattr(c, 'types')
+                                                    or want_modular):
             # contracts without `types` are value-only (pure mode) contracts: always applied modularly
             return self.apply_contract(fi, c, args, kw, st, node)
         if self.depth > self.max_inline_depth + 4:
@@ -48,15 +52,103 @@ class HeapEngine(HeapOps):
         finals = self.exec_function(fi, args, st, kw)
         return [self._after_call(f) for f in finals]
 
+    def apply_modular(self, fi, c, env, st, node):
+        """Modular use of a heap-modifying callee that is itself verified against the full Inv:
+        obligation Inv(heap) at the call point; then the whole heap is replaced by a fresh one about
+        which only Inv and the callee's ensures are known; a raising callee leaves the heap as it was
+        (its contract says on_raise Same)."""
+        from .inv import InvBuilder
+        if c.on_raise != 'Same' or getattr(c, 'inv', True) is not True:
+            raise Unsupported('modular call needs a callee contract with full Inv and on_raise Same: %s' % fi.fid)
+        invb = InvBuilder(self)
+        st = st.copy()
+        for n, f in invb.conjuncts(st.heap):
+            st.obls.append(('call[%s@%s].pre.Inv.%s' % (fi.name, node.lineno, n), list(st.pc), f,
+                            'Inv holds where %s is called' % fi.fid))
+        req, extra = self.eval_spec(c.requires, st, env_extra=env)
+        if req.op != 'true':
+            st.obls.append(('call[%s@%s].pre' % (fi.name, node.lineno), list(st.pc) + list(extra), req,
+                            'precondition of %s' % fi.fid))
+        out = []
+        for exc_name, src in list(c.raises.items()) + list(c.may_raise.items()):
+            cond, ex2 = self.eval_spec(src, st, env_extra=env)
+            r = st.assume(And(cond, *ex2))
+            if r is not None:
+                out.append((r.raise_(exc_name, node.lineno), None))
+        normal = st
+        for exc_name, src in c.raises.items():
+            cond, ex2 = self.eval_spec(src, st, env_extra=env)
+            normal = normal.assume(Not(cond)) if normal is not None else None
+        if normal is None:
+            return out
+        tag = fresh_name('h').replace('k!', '').replace('!', '_')
+        old_heap = dict(normal.heap)
+        new_heap = {}
+        for k, v in old_heap.items():
+            if k == 'hid':
+                continue
+            if k == 'next':
+                new_heap[k] = const('H%s_next' % tag, INT)
+            else:
+                new_heap[k] = const('H%s_%s' % (tag, k.split(':')[-1]), v.sort)
+        normal = normal.copy()
+        normal.heap = new_heap
+        self.touch(normal)
+        normal = normal.assume(Le(old_heap['next'], new_heap['next']))
+        for n, f in invb.conjuncts(normal.heap):
+            normal._add(f)
+        res = const(fresh_name('res_' + fi.name.strip('_')), VAL)
+        env2 = dict(env)
+        env2['result'] = res
+        saved_pre = self.pre_heap
+        self.pre_heap = old_heap
+        try:
+            for src in c.ensures:
+                cond, ex2 = self.eval_spec(src, normal, env_extra=env2)
+                normal = normal.assume(And(cond, *ex2))
+                if normal is None:
+                    break
+        finally:
+            self.pre_heap = saved_pre
+        if normal is not None:
+            # class of every object is immutable; statically known classes survive the havoc
+            out.append((normal, VNONE if fi.kind in ('setter',) else res))
+        return out
+
     def apply_contract(self, fi, c, args, kw, st, node):
         """Modular call: assert requires, branch into the raises clauses, assume ensures.
         Only for callees whose contract says they do not modify the heap (`pure=True`)."""
-        if not getattr(c, 'pure', False) and hasattr(c, 'types'):
+        root_c = self.root[1] if getattr(self, 'root', None) else None
+        want_modular = getattr(c, 'modular', False) and getattr(root_c, 'use_modular', False)
+        if not getattr(c, 'pure', False) and hasattr(c, 'types') and not getattr(c, 'modifies_self', None) \
+                and not want_modular:
             raise Unsupported('contract application for heap-modifying callee %s' % fi.fid)
+        root_c = self.root[1] if getattr(self, 'root', None) else None
+        want_modular = getattr(c, 'modular', False) and getattr(root_c, 'use_modular', False) and root_c is not c
         params = fi.params
-        if len(args) != len(params) or kw:
+        a = fi.node.args
+        defaults = [None] * (len(params) - len(a.defaults)) + list(a.defaults)
+        env = {}
+        kw = dict(kw or {})
+        if len(args) > len(params) or a.vararg or a.kwarg:
             raise Unsupported('contract call arity for %s' % fi.fid)
-        env = dict(zip(params, args))
+        for i, p in enumerate(params):
+            if i < len(args):
+                env[p] = args[i]
+            elif p in kw:
+                env[p] = kw.pop(p)
+            elif defaults[i] is not None:
+                env[p] = self.const_expr(defaults[i], fi)
+            else:
+                raise Unsupported('contract call arity for %s' % fi.fid)
+        if kw:
+            raise Unsupported('contract call with unknown keyword for %s' % fi.fid)
+        if want_modular:
+            self.cur_func.append(fi)
+            try:
+                return self.apply_modular(fi, c, env, st, node)
+            finally:
+                self.cur_func.pop()
         ptypes = getattr(c, 'types', {}) or {}
         st = st.copy()
         for p, t in ptypes.items():
@@ -84,6 +176,22 @@ class HeapEngine(HeapOps):
                 r = st.assume(And(cond, *ex2))
                 if r is not None:
                     out.append((r.raise_(exc_name, node.lineno), None))
+            if normal is not None and getattr(c, 'modifies_self', None):
+                # heap-modifying callee used through an assumed contract: the listed fields of `self`
+                # receive arbitrary new values (a field typed as list gets a fresh list object)
+                selfv = env[params[0]]
+                for fld in c.modifies_self:
+                    if FIELD_TYPES_LIST.get(fld):
+                        normal, lv = self.allocate('list', normal)
+                        k = const(fresh_name('newlen'), INT)
+                        normal = normal.assume(Le(intlit(0), k))
+                        normal.heap['llen'] = Store(self.llen(normal), self.rv(lv), k)
+                        normal.heap['f:' + fld] = Store(self.H(normal, fld), self.rv(selfv), lv)
+                    else:
+                        nv = const(fresh_name('hv_' + fld.strip('_')), VAL)
+                        normal = normal.assume(Not(Is('VUnset', nv)))
+                        normal.heap['f:' + fld] = Store(self.H(normal, fld), self.rv(selfv), nv)
+                self.touch(normal)
             if normal is not None:
                 res = const(fresh_name('res_' + fi.name.strip('_')), VAL)
                 env2 = dict(env)
@@ -259,6 +367,8 @@ def h_UUID(ex, e, st):
     return out
 
 
+FIELD_TYPES_LIST = {'_values': True, 'errors': True}
+
 UUID_DECLS = "(declare-fun uuid_obj (String) Int)\n"
 
 
@@ -363,7 +473,7 @@ bi.SPEC_BUILTINS.update({
     'item': s_item, 'llen': s_llen, 'old': s_old, 'field': s_field, 'canon_uuid': s_canon,
     'uuid_ok': s_uuid_ok, 'is_ref': s_is_ref, 'anc': s_anc, 'owned': s_owned,
     'isSec': s_isclass('BaseSection'), 'isProp': s_isclass('BaseProperty'),
-    'isDoc': s_isclass('BaseDocument'), 'isSL': s_isclass('SmartList'),
+    'isDoc': s_isclass('BaseDocument'), 'isSL': s_isclass('SmartList'), 'isVErr': s_isclass('ValidationError'),
 })
 
 
@@ -383,6 +493,8 @@ class HeapVerifier(vcmod.FunctionVerifier):
         st = State()
         types = getattr(c, 'types', {}) or {}
         for p in list(fi.params) + list(c.ghosts):
+            if getattr(c, 'constructor', None) and p == fi.params[0]:
+                continue
             t = const('p_' + p, VAL)
             self.params[p] = t
             st.env[p] = t
@@ -416,20 +528,33 @@ class HeapVerifier(vcmod.FunctionVerifier):
         st._add(Le(intlit(1), ex.nxt(st)))
         # make sure the heap dict names every array (so that pre_heap is complete)
         for f in ('_sections', '_props', '_parent', '_name', '_id', '_content_type', '_values'):
-            ex.H(st, f)
-        ex.llen(st), ex.litem(st), ex.pos(st), ex.G(st, 'owner', '(Array Int Int)'), ex.G(st, 'kind', '(Array Int Int)')
-        ex.G(st, 'anc', '(Array Int (Array Int Bool))'), ex.G(st, 'depth', '(Array Int Int)')
+            st.heap['f:' + f] = ex.H(st, f)
+        st.heap['llen'], st.heap['litem'], st.heap['g:pos'] = ex.llen(st), ex.litem(st), ex.pos(st)
+        st.heap['g:owner'] = ex.G(st, 'owner', '(Array Int Int)')
+        st.heap['g:kind'] = ex.G(st, 'kind', '(Array Int Int)')
+        st.heap['g:anc'] = ex.G(st, 'anc', '(Array Int (Array Int Bool))')
+        st.heap['g:depth'] = ex.G(st, 'depth', '(Array Int Int)')
+        st.heap['next'] = ex.nxt(st)
         inv_mode = getattr(c, 'inv', True)
         if inv_mode:
             only = None if inv_mode is True else ([inv_mode] if isinstance(inv_mode, str) else list(inv_mode))
             for name, f in self.invb.conjuncts(st.heap, only):
                 st._add(f)
+        self.ctor_pre = None
+        if getattr(c, 'constructor', None):
+            # `self` is a freshly allocated object of the class (all fields unset); Inv speaks about
+            # the objects that existed before, the new object joins at the exits
+            self.ctor_pre = dict(st.heap)
+            st2, selfv = ex.allocate(c.constructor, st)
+            self.params[fi.params[0]] = selfv
+            st2.env[fi.params[0]] = selfv
+            return st2
         return st
 
     def _run(self):
         ex, fi, c = self.ex, self.fi, self.c
         st = self.initial_state()
-        ex.pre_heap = dict(st.heap)
+        ex.pre_heap = dict(self.ctor_pre) if getattr(self, 'ctor_pre', None) else dict(st.heap)
         ex.root = (fi, c)
         ex.cur_func.append(fi)
         try:
@@ -476,7 +601,7 @@ class HeapVerifier(vcmod.FunctionVerifier):
             obs = {n: Obligation('%s#Inv.%s' % (fid, n), 'invariant conjunct %s holds on every exit' % n)
                    for n in names}
             for f in exits:
-                if f.heap == pre.heap:
+                if f.heap == pre.heap and not getattr(self, 'ctor_pre', None):
                     continue
                 for n, formula in self.invb.conjuncts(f.heap, only):
                     obs[n].vcs.append(PathVC(list(f.pc), formula, f.trace, 'inv',
@@ -493,7 +618,7 @@ class HeapVerifier(vcmod.FunctionVerifier):
             for f in exits:
                 if f.status != 'exc':
                     continue
-                for n, formula in self.invb.same(pre.heap, f.heap, []):
+                for n, formula in self.invb.same(self.ex.pre_heap, f.heap, []):
                     ob.vcs.append(PathVC(list(f.pc), formula, f.trace, 'same',
                                          note='%s differs after %s' % (n, f.exc), state=f))
             self.obligations.append(ob)
@@ -539,7 +664,9 @@ def g_query(verifier, vc, K=4, L=3):
         rt = intlit(r)
         values.append(cls_of(rt))
         labels.append(('cls', r))
-        for f in G_FIELDS:
+        for f in sorted(set(G_FIELDS) | {k[2:] for k in pre if k.startswith('f:')}):
+            if 'f:' + f not in pre:
+                continue
             values.append(Select(pre['f:' + f], rt))
             labels.append(('field', r, f))
         values.append(Select(llen0, rt))
